@@ -28,7 +28,8 @@ META = {
              'ommand-line entry point, rescaling windows ending at exactly'
              ' 0, independent index / data shard encodings; sub-check many'
              '_shards: thousands of one-voxel chunks over more than 1024 s'
-             'hard files.'),
+             'hard files.'
+             " Round 12: windows exactly as wide as the output range that start elsewhere (pure shifts), in-memory image objects, and the exhaustive sub-check option_grid (layout x stored type x output type x window class x header scaling / ignore x entry point, ~5000 tiny cases)."),
     "trusted_base": ["nibabel writes the input (stored array and header "
                      "scaling re-read and verified as a precondition)",
                      "vlib/refs/dtype_ref.py, Fraction arithmetic"],
@@ -488,7 +489,10 @@ def grid_cases():
             for stored in storeds:
                 for mm in windows:
                     for scal, ign in ((None, False), ([2.0, -3.0], False),
-                                      ([2.0, -3.0], True), (None, True)):
+                                      ([2.0, -3.0], True), (None, True),
+                                      ([1.0, 100.0], True),
+                                      ([1.0, 100.0], False),
+                                      ([0.5, 0.0], True)):
                         if layout == "rgb" and scal is not None:
                             continue
                         for via in ("api", "cli", "image"):
